@@ -107,3 +107,185 @@ def ind_calls(f, field=None):
         if ("." + field) in pr or o.get("place", "").endswith("." + field):
             out.append(c)
     return out
+
+
+# ---------------------------------------------------------------- inline view
+# A rule that looks for a call / store in function F also looks inside same-crate callees of F the rule does not
+# know by name (private helpers), and inside closures of F handed to them, so that extracting a helper is invisible.
+
+_CLOSURE_CALL = ["FnOnce::call_once", "FnMut::call_mut", "Fn::call"]
+
+
+class Site:
+    """A site of the inline view: chain = ((fn, bb), ...) from the analysed function (call blocks) down to the
+    function containing the site.  opaque: reached through code we cannot see (closure given to a foreign fn)."""
+    __slots__ = ("chain", "opaque")
+
+    def __init__(self, chain, opaque=False):
+        self.chain = tuple(chain)
+        self.opaque = opaque
+
+    @property
+    def top(self):
+        return self.chain[0][1]
+
+    @property
+    def fn(self):
+        return self.chain[-1][0]
+
+    @property
+    def bb(self):
+        return self.chain[-1][1]
+
+    def must(self, k=0):
+        """the site is executed whenever the call at chain[k] returns (it lies on every entry->return path of
+        every inlined function below level k)."""
+        if self.opaque and len(self.chain) > k + 1:
+            return False
+        return all(g.all_paths_pass(0, g.returns(), [b]) for g, b in self.chain[k + 1:])
+
+    def once(self):
+        return not self.opaque and all(not g.in_cycle(b) for g, b in self.chain)
+
+    def loc(self):
+        return self.fn.loc(self.bb)
+
+    def __repr__(self):
+        return "site<" + " > ".join(f"{g.npath.split('::')[-1]}:bb{b}" for g, b in self.chain) + ">"
+
+
+def crate_callee(c, call):
+    """the same-crate function a direct call resolves to (None: foreign, indirect or trait-dispatched)."""
+    if call.ind is not None:
+        return None
+    idx = getattr(c, "_by_npath", None)
+    if idx is None:
+        idx = {}
+        for g in c.fns.values():
+            idx.setdefault(g.npath, []).append(g)
+        c._by_npath = idx
+    for n in (call.res, call.fn):
+        if n:
+            gs = idx.get(mir.norm(n), [])
+            if len(gs) == 1:
+                return gs[0]
+    return None
+
+
+def passed_closures(c, f, call):
+    kids = {k.path: k for k in c.closures_of(f)}
+    out = []
+    for a in call.args:
+        o = f.origin(a)
+        if o.get("kind") == "agg" and "closure" in o.get("rv", {}):
+            k = kids.get(o["rv"]["closure"])
+            if k is not None and k not in out:
+                out.append(k)
+    return out
+
+
+def inline_sites(c, f, finder, known=(), depth=2, _chain=(), _stack=()):
+    """Sites `finder(g) -> [bb]` finds in f and, transitively (depth levels), in same-crate callees of f that do
+    not match `known` (names the rule reasons about itself) and in closures of f passed to a callee."""
+    out = [Site(_chain + ((f, b),)) for b in finder(f)]
+    if depth <= 0:
+        return out
+    stack = _stack + (f.path,)
+    for call in f.calls():
+        if known and call.matches(list(known)):
+            continue
+        g = crate_callee(c, call)
+        here = _chain + ((f, call.bb),)
+        ks = passed_closures(c, f, call)
+        if g is not None and g.path not in stack:
+            out += inline_sites(c, g, finder, known, depth - 1, here, stack)
+            for k in ks:
+                for y in g.call_blocks(_CLOSURE_CALL):
+                    out += inline_sites(c, k, finder, known, depth - 1, here + ((g, y),), stack + (g.path,))
+        else:
+            for k in ks:
+                for s in inline_sites(c, k, finder, known, depth - 1, here, stack):
+                    out.append(Site(s.chain, True))
+    return out
+
+
+def _at_level(A, s, k):
+    g = s.chain[k][0]
+    return [a for a in A if len(a.chain) > k and a.chain[:k] == s.chain[:k] and a.chain[k][0] is g]
+
+
+def site_dominated(A, s, k=0):
+    """Every path from the entry of the analysed function to site s has passed (completely) a site of A."""
+    g, b = s.chain[k]
+    cand = _at_level(A, s, k)
+    doms = {a.chain[k][1] for a in cand if a.chain[k][1] != b and a.must(k)}
+    if doms and g.set_dominates(doms, b):
+        return True
+    same = [a for a in cand if a.chain[k][1] == b]
+    if len(s.chain) == k + 1:
+        return any(len(a.chain) == k + 1 for a in same)
+    return site_dominated([a for a in same if len(a.chain) > k + 1], s, k + 1)
+
+
+def site_after(r, i):
+    """site i can execute after site r."""
+    for k in range(min(len(r.chain), len(i.chain))):
+        (g, br), (h, bi) = r.chain[k], i.chain[k]
+        if g is not h:
+            return True     # different callees of one block: cannot order, assume the worst
+        if br != bi:
+            return bi in g.reachable(br)
+        if g.in_cycle(br):
+            return True
+    return False
+
+
+def sites_on_all_paths_after(r, A):
+    """Every path from just after site r to a return of the analysed function passes a site of A."""
+    for k in range(len(r.chain) - 1, -1, -1):
+        g, b = r.chain[k]
+        thr = {a.chain[k][1] for a in _at_level(A, r, k) if a.chain[k][1] != b and a.must(k)}
+        if all(g.all_paths_pass(s, g.returns(), thr) for s in g.succ[b]):
+            return True
+    return False
+
+
+def every_return_passes_site(f, A):
+    """Every entry->return path of f passes (completely) a site of A; False when A is empty."""
+    thr = {a.top for a in A if a.chain[0][0] is f and a.must(0)}
+    return bool(thr) and f.all_paths_pass(0, f.returns(), thr)
+
+
+def callers_of(c, g):
+    """(direct callers of g in the crate, address_taken): address_taken is True when g's name occurs in a body
+    other than as the callee of a call (it could then be invoked from anywhere)."""
+    callers, taken = [], False
+
+    def walk(x, in_call):
+        nonlocal taken
+        if isinstance(x, dict):
+            if not in_call and isinstance(x.get("fn"), str) and mir.norm(x["fn"]) == g.npath:
+                taken = True
+            for v in x.values():
+                walk(v, False)
+        elif isinstance(x, list):
+            for v in x:
+                walk(v, False)
+
+    for h in c.fns.values():
+        for bb in h.bbs:
+            for s in bb["st"]:
+                walk(s, False)
+            t = bb["t"]
+            if t["k"] == "call":
+                if crate_callee(c, Call_of(bb, t)) is g and h not in callers:
+                    callers.append(h)
+                for a in t["args"]:
+                    walk(a, False)
+            else:
+                walk(t, False)
+    return callers, taken
+
+
+def Call_of(bb, t):
+    return mir.Call(-1, t)
